@@ -24,8 +24,8 @@ using sim::Rng;
 
 namespace {
 
-enum OpKind : uint16_t { kValidStep, kCall, kBadBind, kBadAlign, kBadEmbedLabel, kBadEmbedDelta, kBadSection, kBadNamedLabel, kBadEmbedArray, kA64Form, kX86ShortJump, kX86Locked, kOpCount };
-const char* const kOpNames[kOpCount] = {"valid_step", "call", "bad_bind", "bad_align", "bad_embed_label", "bad_embed_label_delta", "bad_section", "bad_named_label", "bad_embed_array", "a64_form", "x86_short_jump", "x86_locked"};
+enum OpKind : uint16_t { kValidStep, kCall, kBadBind, kBadAlign, kBadEmbedLabel, kBadEmbedDelta, kBadSection, kBadNamedLabel, kBadEmbedArray, kA64Form, kX86ShortJump, kX86Locked, kX86ZMask, kOpCount };
+const char* const kOpNames[kOpCount] = {"valid_step", "call", "bad_bind", "bad_align", "bad_embed_label", "bad_embed_label_delta", "bad_section", "bad_named_label", "bad_embed_array", "a64_form", "x86_short_jump", "x86_locked", "x86_zmask"};
 const char* op_name(uint16_t k) { return k < kOpCount ? kOpNames[k] : "?"; }
 
 enum HandlerMode { kHandlerNone = 0, kHandlerRecording, kHandlerThrowing, kHandlerModeCount };
@@ -469,6 +469,29 @@ CallResult perform(Subject& s, const gen::Program& prog, const Op& op, bool* mus
         if (!dst_is_mem) { *must_fail_out = true; s.last_must_fail_other = true; sim::count("c14.probe.lock_without_memory_destination"); }
         break;
       }
+      case kX86ZMask: {
+        // AVX-512 zeroing-masking {z} only exists for instructions that write a vector register: with a mask register or
+        // memory as destination EVEX.z is reserved (#UD).
+        if (s.target == gen::Target::kA64) break;
+        namespace I = x86::Inst;
+        uint32_t shape = uint32_t(uint64_t(op.a[0]) % 6);
+        uint32_t kreg = uint32_t(1 + uint64_t(op.a[1]) % 7);
+        x86::Vec z1 = x86::zmm(1), z2 = x86::zmm(2), z3 = x86::zmm(uint32_t(3 + uint64_t(op.a[2]) % 4));
+        x86::Mem m = x86::zmmword_ptr(s.target == gen::Target::kX64 ? x86::Gp(x86::rsi) : x86::Gp(x86::esi), 64);
+        e.set_inst_options(InstOptions::kX86_ZMask);
+        if (kreg) e.set_extra_reg(x86::k(kreg));
+        bool dst_is_vec = shape < 3;
+        switch (shape) {
+          case 0: r.err = e.emit(I::kIdVaddps, z1, z2, z3); break;
+          case 1: r.err = e.emit(I::kIdVpaddd, z1, z2, m); break;
+          case 2: r.err = e.emit(I::kIdVmovdqu32, z1, m); break;
+          case 3: r.err = e.emit(I::kIdVpcmpeqd, x86::k(2), z2, z3); break;      // destination is a mask register
+          case 4: r.err = e.emit(I::kIdVptestmd, x86::k(3), z2, z3); break;
+          default: r.err = e.emit(I::kIdVmovdqu32, m, z1); break;                // destination is memory
+        }
+        if (!dst_is_vec) { *must_fail_out = true; s.last_must_fail_other = true; sim::count("c14.probe.zmask_without_vector_destination_or_mask"); }
+        break;
+      }
       case kX86ShortJump: {
         // instructions that only have (or are forced into) the rel8 form: onto a label that is bound too far away they
         // cannot be encoded
@@ -546,7 +569,7 @@ void execute(const Plan& plan) {
         if (hm != kHandlerNone && op.kind != kBadNamedLabel && op.kind != kBadSection) {
           if (r.handler_calls == 0) sim::count("c14.probe.error_without_handler_call"); else if (r.handler_calls > 1) sim::count("c14.probe.handler_called_more_than_once");
           // The statement requires the error to be reported through the return value AND the attached handler.
-          if (op.kind == kCall || op.kind == kA64Form || op.kind == kX86ShortJump || op.kind == kX86Locked || op.kind == kValidStep) SIM_CHECK(r.handler_calls >= 1, "c14:error-not-reported-to-handler", "%s returned error %u but the attached error handler was never invoked", op_name(op.kind), unsigned(r.err));
+          if (op.kind == kCall || op.kind == kA64Form || op.kind == kX86ShortJump || op.kind == kX86Locked || op.kind == kX86ZMask || op.kind == kValidStep) SIM_CHECK(r.handler_calls >= 1, "c14:error-not-reported-to-handler", "%s returned error %u but the attached error handler was never invoked", op_name(op.kind), unsigned(r.err));
         }
       }
       else {
@@ -694,9 +717,9 @@ Plan generate(uint64_t seed, bool thorough) {
         op.a[3] = int64_t(r.below(2));
       }
       else {
-        static const uint16_t ks[] = {kBadBind, kBadAlign, kBadEmbedLabel, kBadEmbedDelta, kBadSection, kBadNamedLabel, kBadEmbedArray, kX86ShortJump, kX86Locked};
+        static const uint16_t ks[] = {kBadBind, kBadAlign, kBadEmbedLabel, kBadEmbedDelta, kBadSection, kBadNamedLabel, kBadEmbedArray, kX86ShortJump, kX86Locked, kX86ZMask};
         op.kind = r.pick(ks);
-        if ((op.kind == kX86ShortJump || op.kind == kX86Locked) && target == 2) op.kind = kBadAlign;
+        if ((op.kind == kX86ShortJump || op.kind == kX86Locked || op.kind == kX86ZMask) && target == 2) op.kind = kBadAlign;
         op.a[0] = r.chance(1, 2) ? int64_t(r.below(8)) : -int64_t(1 + r.below(8)); op.a[1] = r.chance(1, 2) ? int64_t(r.below(8)) : -int64_t(1 + r.below(8)); op.a[2] = int64_t(r.below(100));
         if (op.kind == kBadAlign || op.kind == kBadEmbedArray || op.kind == kBadNamedLabel) op.a[0] = int64_t(r.below(1000));
         if (op.kind == kBadEmbedLabel) op.a[1] = int64_t(r.below(1000));
